@@ -41,7 +41,7 @@ import (
 // Upgrade level cases: role listen: wrong subprotocol, no subprotocol, missing
 // Sec-WebSocket-Key, bytes that are not HTTP, half a request followed by silence; role
 // dial: 101 with a subprotocol that was not offered (RFC 6455 4.1: the client must fail the
-// connection), wrong / missing Sec-WebSocket-Accept, bytes that are not HTTP, status 200,
+// connection), 101 with no subprotocol selected at all (the server is not an SP endpoint), wrong / missing Sec-WebSocket-Accept, bytes that are not HTTP, status 200,
 // silence.  Oracle: no pipe attaches, and while the hostile connection is pending a new well
 // behaved peer connects and exchanges messages.
 var scWS = &scenario{name: "websocket", cases: wsCases, chunk: 2}
@@ -53,7 +53,7 @@ var wsFrameCases = []string{"text", "fragmented", "fragmented-over", "binary-102
 
 var wsUpgradeCases = map[string][]string{
 	roleListen: {"wrong-subprotocol", "no-subprotocol", "missing-key", "not-http", "partial-then-silence"},
-	roleDial:   {"wrong-subprotocol", "wrong-accept", "missing-accept", "not-http", "status-200", "silence"},
+	roleDial:   {"wrong-subprotocol", "no-subprotocol-selected", "wrong-accept", "missing-accept", "not-http", "status-200", "silence"},
 }
 
 const wsLimit = 1024
@@ -331,6 +331,9 @@ func runWSUpgrade(c *cctx, tran, role, name string) {
 		switch name {
 		case "wrong-subprotocol":
 			ans = wsAnswer101(wsAcceptKey(key), "pub"+spSuffix)
+		case "no-subprotocol-selected":
+			// a WebSocket server that upgrades without selecting the SP subprotocol is not an SP peer
+			ans = wsAnswer101(wsAcceptKey(key), "")
 		case "wrong-accept":
 			ans = wsAnswer101(wsAcceptKey(wsKey(4711)), good)
 		case "missing-accept":
